@@ -51,7 +51,8 @@ EXPECTED_PROBES = ["op_set_geometry", "op_concat", "op_pickle", "op_cx", "op_col
                    "inactive_column_named_geometry", "dask_concat", "dask_repartition", "dask_filter",
                    "op_set_geometry_inplace", "op_concat_of_empty_frames",
                    "dask_two_frames_same_schema_other_active",
-                   "dask_parquet_default_after_geometry_kw", "dask_parquet_columns_reordered"]
+                   "dask_parquet_default_after_geometry_kw", "dask_parquet_columns_reordered",
+                   "dask_parquet_fully_pruned"]
 
 PANDAS_OPS = ("set_geometry", "set_geometry_same_then_inplace", "iloc", "mask", "query", "head",
               "take", "sample", "sort_values", "copy", "colsubset", "colsubset_other",
@@ -218,6 +219,7 @@ def _drive(case, root, fs, probes, sig, done):
     dactive = None
     earlier = []        # (pandas frame, active) and (dask frame, active) seen before: later
     dearlier = []       # operations on derived frames must not change them
+    pruned_alive = []   # results of bounds= re-reads (possibly empty), kept referenced
     for st in case["steps"]:
         if isinstance(df, GeoDataFrame) and active in _geo_cols(df):
             earlier.append((df, active))
@@ -320,6 +322,11 @@ def _drive(case, root, fs, probes, sig, done):
                 if st["bits"] & 1:
                     # pruning must use the requested column's stored extents
                     b = st["box"]
+                    if st["bits"] & 16:
+                        # a box disjoint from everything: every partition is pruned; such empty
+                        # results of earlier reads (other geometry=) are still alive
+                        b = [100.0, 100.0, 120.0, 130.0]
+                        probes["dask_parquet_fully_pruned"] = 1
                     probes["dask_parquet_geometry_and_bounds_kw"] = 1
                     full = _guard("compute", lambda: ddf.compute(), sig)
                     pr = _guard("read_parquet_dask(geometry=, bounds=)",
@@ -329,6 +336,21 @@ def _drive(case, root, fs, probes, sig, done):
                     # report and use the requested column
                     _check_dask(pr, col, "d_parquet[geometry=, bounds=]", sig, probes, st,
                                 light=True)
+                    pruned_alive.append(pr)
+                    del pruned_alive[:-4]
+                    if st["bits"] & 16:
+                        # the same fully pruned read for every other geometry column, all
+                        # results alive together: each reports the column it was asked for
+                        for other in cols:
+                            if other == col:
+                                continue
+                            po = _guard("read_parquet_dask(geometry=, bounds=) [all pruned]",
+                                        lambda other=other: read_parquet_dask(
+                                            path, filesystem=fs, geometry=other,
+                                            bounds=tuple(b), **rkw), sig)
+                            pruned_alive.append(po)
+                            _check_dask(po, other, "d_parquet[geometry=, bounds= pruning all]",
+                                        sig, probes, st, light=True)
                     if pr.geometry.name != col:
                         raise Bad("dask-active-changed@d_parquet",
                                   f"read_parquet_dask(geometry={col!r}, bounds={b}) reports "
